@@ -18,6 +18,7 @@ package main
 import (
 	"bufio"
 	"bytes"
+	"context"
 	"encoding/json"
 	"fmt"
 	"os"
@@ -55,6 +56,7 @@ type runOut struct {
 	Points   []point    `json:"points"`
 	Panics   []string   `json:"panics"`
 	Diverged string     `json:"diverged"`
+	Deadlock string     `json:"deadlock"`
 	CapHit   bool       `json:"capHit"`
 	Changed  []int      `json:"changed"`
 	Shared   int64      `json:"shared"`
@@ -73,12 +75,17 @@ type traceOut struct {
 
 func worker(req interface{}, out interface{}) error {
 	js, _ := json.Marshal(req)
-	cmd := exec.Command(workerBin)
+	ctx, cancel := context.WithTimeout(context.Background(), 300*time.Second)
+	defer cancel()
+	cmd := exec.CommandContext(ctx, workerBin)
 	cmd.Stdin = bytes.NewReader(js)
 	var so, se bytes.Buffer
 	cmd.Stdout, cmd.Stderr = &so, &se
 	cmd.Env = append(os.Environ(), "GOMAXPROCS=2")
 	if err := cmd.Run(); err != nil {
+		if ctx.Err() != nil {
+			return errHung
+		}
 		tail := se.String()
 		if len(tail) > 1500 {
 			tail = tail[len(tail)-1500:]
@@ -87,6 +94,8 @@ func worker(req interface{}, out interface{}) error {
 	}
 	return json.Unmarshal(so.Bytes(), out)
 }
+
+var errHung = fmt.Errorf("worker made no progress for 300 s and was killed")
 
 var (
 	roots, sites, opNames []string
@@ -234,6 +243,10 @@ func interesting(s scenario) []int {
 // judge compares one execution with the solo results.
 func judge(s scenario, o runOut, choices []int, l *mc.Local) bool {
 	ok := true
+	if o.Deadlock != "" {
+		chk.Violation("C18/deadlock/"+classify(s), fmt.Sprintf("%s: %s (schedule %v)", s.name(), o.Deadlock, choices), replayCase{s.name(), s.Threads, choices, o.Deadlock})
+		return false
+	}
 	if len(o.Panics) > 0 {
 		chk.Violation("C18/panic-under-schedule/"+classify(s), fmt.Sprintf("%s: %s (schedule %v)", s.name(), strings.Join(o.Panics, "; "), choices), replayCase{s.name(), s.Threads, choices, strings.Join(o.Panics, "; ")})
 		ok = false
@@ -330,9 +343,24 @@ func stage2() {
 				l.Count("transitions", o.Shared)
 				l.Distinct("nontrivial", fmt.Sprint(s.Threads, orders[k]))
 				judge(s, o, choicesOf(o.Points), l)
-				if len(o.Changed) > 0 {
-					d := fmt.Sprintf("%s: shared variables %v changed although no operation changes them alone (order %v)", s.name(), rootNames(o.Changed), orders[k])
-					chk.Violation("C18/shared-write/"+strings.Join(rootNames(o.Changed), ","), d, replayCase{s.name(), s.Threads, orders[k], d})
+				// shared state may change only where some operation of the scenario changes it alone
+				expected := map[int]bool{}
+				for _, t := range s.Threads {
+					for _, op := range t {
+						for _, r := range solo[op].Changed {
+							expected[r] = true
+						}
+					}
+				}
+				var unexpected []int
+				for _, r := range o.Changed {
+					if !expected[r] {
+						unexpected = append(unexpected, r)
+					}
+				}
+				if len(unexpected) > 0 {
+					d := fmt.Sprintf("%s: shared variables %v changed although no operation of the scenario changes them when run alone (order %v)", s.name(), rootNames(unexpected), orders[k])
+					chk.Violation("C18/shared-write/"+strings.Join(rootNames(unexpected), ","), d, replayCase{s.name(), s.Threads, orders[k], d})
 				}
 			}
 		})
@@ -388,7 +416,12 @@ func exploreDependent(dep []scenario) {
 					levels[b] = levels[b][:len(levels[b])-1]
 					var outs []runOut
 					l.Beat(s.name())
-					if err := worker(map[string]interface{}{"mode": "runs", "runs": []runReq{{Threads: s.Threads, Prefix: prefix, Interesting: I, MaxPoints: maxPoints}}}, &outs); err != nil || len(outs) != 1 {
+					err := worker(map[string]interface{}{"mode": "runs", "runs": []runReq{{Threads: s.Threads, Prefix: prefix, Interesting: I, MaxPoints: maxPoints}}}, &outs)
+					if err == errHung {
+						chk.Incomplete("stage 2b "+s.name(), fmt.Sprintf("worker hung under schedule %v (blocking or spinning outside the primitives the scheduler models); left to the race pass", prefix))
+						break outer
+					}
+					if err != nil || len(outs) != 1 {
 						chk.Violation("C18/worker-died/"+classify(s), fmt.Sprintf("%s under schedule %v: %v", s.name(), prefix, err), replayCase{s.name(), s.Threads, prefix, "worker died"})
 						failed = true
 						break outer
